@@ -262,6 +262,10 @@ func init() {
 		Exec: func(j *mc.Job) *mc.JobResult { return mc.SeqExec(j, c03Run) },
 		Drive: func(c *mc.Ctx) {
 			cfgs := c03Configs()
+			mc.SeqFullDepth = 1
+			if c.Tier == "thorough" {
+				mc.SeqFullDepth = 2
+			}
 			stats := map[string]mc.SeqStats{}
 			total := mc.SeqStats{}
 			for i, cfg := range cfgs {
